@@ -286,7 +286,6 @@ func dateChain(v ssa.Value, clockParam string) (bool, string) {
 	return dateTerm(termOf(v, nil, 0), clockParam)
 }
 
-
 // valuesAlong: the values a merge delivers along those incoming edges whose state satisfies
 // pred (followed through nested merges).
 func valuesAlong(ff *FuncFacts, v ssa.Value, pred func(*factState) bool, depth int) []ssa.Value {
